@@ -1,7 +1,7 @@
-(* Out-of-range shape ranks are rejected by Tree.unrank for every n >= 2 (unbounded):
+(* Out-of-range shape ranks are rejected by Tree.unrank for every n >= 1 (unbounded):
    whenever num_shapes n evaluates to S, every shape rank s >= S makes tree_unrank
-   return Err E_RANK (= ValueError "Rank is out of bounds.").  For n = 1 this is false
-   (unrank_oor_n1_refuted). *)
+   return Err E_RANK (= ValueError "Rank is out of bounds.").  Before fix 7829e32 this was
+   false for n = 1 (F13; see unrank_oor_n1_pinned_refuted). *)
 From Coq Require Import List ZArith Bool Lia Arith.
 From TskVerif Require Import Base.Common C15.Combination C15.Partitions C15.RankTree
   C15.CombProofs C15.CombRankProofs C15.WRProofs.
@@ -139,17 +139,25 @@ Proof.
 Qed.
 
 Lemma children_shape_ranks_oor n nS s :
-  2 <= n -> num_shapes n = Ok nS -> nS <= s -> children_shape_ranks s n = Err E_RANK.
+  1 <= n -> num_shapes n = Ok nS -> nS <= s -> children_shape_ranks s n = Err E_RANK.
 Proof.
   intros Hn HS Hs.
-  destruct (num_shapes_unfold n nS Hn HS) as [m [t [ps [Ht [Hp Hsum]]]]].
-  unfold children_shape_ranks. rewrite Hp. simpl.
-  rewrite (csr_find_exhausted m t Ht ps nS s Hsum Hs). simpl.
-  replace (n =? 1) with false by (symmetry; apply Z.eqb_neq; lia). reflexivity.
+  destruct (Z.eq_dec n 1) as [->|Hne].
+  - (* one leaf: num_shapes 1 = 1, no partition, the remaining rank s >= 1 is not 0 *)
+    assert (nS = 1) by (vm_compute in HS; congruence). subst nS.
+    unfold children_shape_ranks.
+    change (partitions 1) with (Ok (@nil (list Z))). cbn [bind csr_find].
+    change (1 =? 1) with true.
+    replace (s =? 0) with false by (symmetry; apply Z.eqb_neq; lia). reflexivity.
+  - assert (2 <= n) as Hn2 by lia.
+    destruct (num_shapes_unfold n nS Hn2 HS) as [m [t [ps [Ht [Hp Hsum]]]]].
+    unfold children_shape_ranks. rewrite Hp. simpl.
+    rewrite (csr_find_exhausted m t Ht ps nS s Hsum Hs). simpl.
+    replace (n =? 1) with false by (symmetry; apply Z.eqb_neq; lia). reflexivity.
 Qed.
 
 Lemma tree_unrank_shape_oor n nS s l :
-  2 <= n -> num_shapes n = Ok nS -> nS <= s -> 0 <= nS -> 0 <= l ->
+  1 <= n -> num_shapes n = Ok nS -> nS <= s -> 0 <= nS -> 0 <= l ->
   tree_unrank n s l = Err E_RANK.
 Proof.
   intros Hn HS Hs HS0 Hl. unfold tree_unrank, rt_unrank.
